@@ -2655,6 +2655,7 @@ namespace detail {
                         JSONCONS_ASSERT(!stack.empty());
                         arg_stack.push_back(std::move(stack.back()));
                         stack.pop_back();
+                        root_ptr = std::addressof(doc); // a pipe inside this argument does not change the current node of the next one
                         break;
                     }
                     case token_kind::function:
